@@ -4,7 +4,9 @@ import numpy as np
 import em_common as E
 
 RULE = ("references of 3-40 atoms (random trees, cyclic graphs, chains, stars, random labels), targets of 1-60 atoms near "
-        "the reference, s in (0,2] with 1 and 0.5 over-represented; geometry streams: generic (molecule-like walk), "
+        "the reference, s in (0,2] with 1 and 0.5 over-represented plus one in eight a boundary value (0 as int and float, tiny, "
+        "negative, 2: K cases; S demands the law for s in (0,2]); one pair in three multi-residue (2-4 residues, same numbers in "
+        "reference and target, s != 1); geometry streams: generic (molecule-like walk), "
         "partial (one anchor exactly collinear with its frame neighbours), near (near-collinear, margin 1e-9..1e-3), "
         "nearlinear (anchor bent off the line by sin phi in [2e-5,1e-2]), neartie (target atoms 5e-7..2.5e-4 nm off the "
         "bisector plane of two anchors, s in {0.25,0.5,0.9,2}), elastic (20-40 atoms, elastic-network bond lists with "
